@@ -354,6 +354,48 @@ def r1_2b(repo: Repo) -> RuleResult:
     return rr
 
 
+def _iteration_paths(stmts, action_ids) -> Set[Tuple[int, str]]:
+    """(number of row actions, outcome) of every structured path through one iteration of a loop body; outcome is
+    'fall' (reaches the end of the body), 'continue', 'break', 'return' or 'raise'.  Row actions inside an inner loop
+    count as 9 (many)."""
+    states = {(0, "fall")}
+    for st in stmts:
+        nxt = set()
+        for cnt, out in states:
+            if out != "fall":
+                nxt.add((cnt, out))
+                continue
+            if id(st) in action_ids:
+                nxt.add((cnt + 1, "fall"))
+            elif isinstance(st, ast.If):
+                for arm in (st.body, st.orelse):
+                    for c2, o2 in _iteration_paths(arm, action_ids):
+                        nxt.add((cnt + c2, o2))
+            elif isinstance(st, (ast.For, ast.While)):
+                inner = any(id(x) in action_ids for y in st.body for x in ast.walk(y))
+                nxt.add((cnt + (9 if inner else 0), "fall"))
+            elif isinstance(st, ast.Try):
+                for arm in [st.body + st.orelse] + [h.body for h in st.handlers]:
+                    for c2, o2 in _iteration_paths(arm, action_ids):
+                        nxt.add((cnt + c2, o2))
+            elif isinstance(st, ast.With):
+                for c2, o2 in _iteration_paths(st.body, action_ids):
+                    nxt.add((cnt + c2, o2))
+            elif isinstance(st, ast.Continue):
+                nxt.add((cnt, "continue"))
+            elif isinstance(st, ast.Break):
+                nxt.add((cnt, "break"))
+            elif isinstance(st, ast.Return):
+                nxt.add((cnt, "return"))
+            elif isinstance(st, ast.Raise):
+                nxt.add((cnt, "raise"))
+            else:
+                # a simple statement that contains an action call (e.g. result.append(...) as an expression statement)
+                nxt.add((cnt + (1 if any(id(x) in action_ids for x in ast.walk(st)) else 0), "fall"))
+        states = nxt
+    return states
+
+
 def r1_3(repo: Repo) -> RuleResult:
     rr = RuleResult("R1.3", "row loops of transform terminate each row exactly once (no skipped or doubled rows)", floor=8)
     for c in exported_estimators(repo):
@@ -401,11 +443,14 @@ def r1_3(repo: Repo) -> RuleResult:
                 for nm, n, st in actions:
                     by_name.setdefault(nm, []).append(st)
                 for nm, sts in by_name.items():
-                    direct = [st for st in sts if any(st is s for s in lp.body)]
-                    if len(direct) != 1 or len(sts) != 1:
-                        problems.append("row-terminating action on `%s` is not executed exactly once per iteration" % nm)
-                if jumps:
-                    problems.append("`%s` at loop level can skip or cut the row" % type(jumps[0]).__name__.lower())
+                    outcomes = _iteration_paths(lp.body, {id(st) for st in sts})
+                    bad_counts = sorted({c for c, o in outcomes if o in ("fall", "continue") and c != 1})
+                    cut = sorted({o for c, o in outcomes if o in ("break", "return")})
+                    if bad_counts:
+                        problems.append("row-terminating action on `%s` is executed %s time(s) on some path through an iteration, not exactly once"
+                                        % (nm, "/".join("many" if c > 8 else str(c) for c in bad_counts)))
+                    if cut:
+                        problems.append("`%s` can leave the row loop before all items are processed" % "/".join(cut))
                 if problems:
                     rr.bad(f, construct, "; ".join(problems), lp.lineno)
                 else:
